@@ -43,6 +43,9 @@ Observe ==
     LET P == Ev.post IN
     /\ Ev.data_errors = <<>>
     /\ P.unknown_entries = 0
+    \* pair phase of the driver: each time the only two holders of a content had both returned from drop, that
+    \* content was quiescent - TableLive then says the table has no entry for it; the driver counts the times it had
+    /\ ("pair_stale" \in DOMAIN Ev => Ev.pair_stale = 0)
     /\ Ev.final => \A t \in Threads, i \in Slots : P.slot[t][i] = NoBuf
     /\ slot' = P.slot /\ made' = P.made /\ pending' = P.pending /\ table' = P.table
     /\ strong' = P.strong /\ bcontent' = P.bcontent /\ nextBuf' = P.next
